@@ -14,7 +14,7 @@ from ..rules import norm
 META = {
     "level": "other",
     "technique": "wire-signature comparison of chunk element records (typed HIR) + declared-size vs computed-width rule + constant-placeholder rule",
-    "claim": "Decides, for every root chunk that has both a writer and a parser function, agreement of element layout (width/order/named fields), that each declared chunk size equals count × bytes actually written per element, and that offsets/ids the parser uses are not written as literal placeholders. Group files (binrw-derived readers) and converters are not covered. Also: a list's chunk is guarded only by conditions on that list; string-table offsets count bytes; extremum accumulators start at their identity; the group header width agrees with the group parser (known finding). Wave 5: pre-allocation caps bound only the allocation; MOHD counts are list lengths, never cached header fields. Wave 6: the visible-block list ends exactly at the marker the writer emits (all 65536 values); names reach write_all verbatim; MOHD is emitted with the widths of root_parser::Mohd and its declared size. Wave 7: a fixed-size name field is filled with field length - 1 bytes; conversion masks clear the named flags (`&= !(..)`), never keep only them.",
+    "claim": "Decides, for every root chunk that has both a writer and a parser function, agreement of element layout (width/order/named fields), that each declared chunk size equals count × bytes actually written per element, and that offsets/ids the parser uses are not written as literal placeholders. Group files (binrw-derived readers) and converters are not covered. Also: a list's chunk is guarded only by conditions on that list; string-table offsets count bytes; extremum accumulators start at their identity; the group header width agrees with the group parser (known finding). Wave 5: pre-allocation caps bound only the allocation; MOHD counts are list lengths, never cached header fields. Wave 6: the visible-block list ends exactly at the marker the writer emits (all 65536 values); names reach write_all verbatim; MOHD is emitted with the widths of root_parser::Mohd and its declared size. Wave 7: a fixed-size name field is filled with field length - 1 bytes; conversion masks clear the named flags (`&= !(..)`), never keep only them. Wave 8: the payload loop walks what the declared size was summed over; record loops of the parsers keep every record.",
     "note": "Trusted: primitive-name widths; the parser's per-element stride is whatever it reads plus explicit skips. Padding runs on the writer side may pair with a reader-side skip.",
     "assumptions": ["chunk framing is (id, size) + payload on both sides (ChunkHeader)"],
     "explanation": "WmoWriter::write_{materials,group_info,lights,doodad_sets,portals,portal_references,visible_block_lists,header,version,...} against WmoParser::parse_*; all ChunkHeader{size: n*K} literals in writer.rs.",
